@@ -91,8 +91,8 @@ claim('C08', 'arm summaries of representation matches with identifiers resolved 
       'families (rate mods, HR/EZ), that mod-derived clock rate / attribute values are reachable only through the override-aware getters, and that every attribute-builder chain a calculator drives to build()/hit_windows() goes through .difficulty(..) with no setting setter before it. '
       'Numerical equality and lazer per-mod settings are not decided.', 'rosu-mods 0.3.1 semantics of contains/contains_intermode', 'DESIGN.md §5 C08')
 claim('C14', 'provenance of is_convert in every attribute construction (interprocedural through helpers) + who-may-write on Beatmap.is_convert',
-      'Decides the is_convert clause (attributes report exactly the converted map\'s flag and only the converters set it, each with its own mode) and three counting-shape clauses: osu! kinds '
-      'are counted by exactly one counter each and alike in both paths, passed_objects(n) records and returns n, mania hold notes are counted by object kind alone (path by path). '
+      'Decides the is_convert clause (attributes report exactly the converted map\'s flag and only the converters set it, each with its own mode) and four counting-shape clauses: osu! kinds '
+      'are counted by exactly one counter each and alike in both paths, passed_objects(n) records and returns n, mania hold notes are counted by object kind alone (path by path), the taiko one-shot counter sees every object its iterator yields (adaptor in front of every truncation, or counted on every path from next() to a return). '
       'All other counting clauses are arithmetic over runtime values and not decided.', 'exported MIR', 'DESIGN.md §5 C14')
 claim('C15', 'delegation shape check (single call, parameter pass-through, constants) and arm summaries of the enum wrappers',
       'Decides the delegation clauses: next = nth(0), last = nth(usize::MAX), len = inner len, 24 wrapper arms forward to the same-named payload method '
